@@ -481,7 +481,7 @@ fn judge_edge(cx: &Ctx<'_>, rank: &[usize], r_before: &Ref, op: &Op, prev: &TMap
     }
 }
 
-fn judge_severity(cx: &Ctx<'_>, rank: &[usize], op: &Op, with_failure: &TMap, with_severe: &TMap, nm: Namer, hist: &dyn Fn() -> Value) {
+fn judge_severity(cx: &Ctx<'_>, rank: &[usize], op: &Op, plain: Stat, with_failure: &TMap, with_severe: &TMap, nm: Namer, hist: &dyn Fn() -> Value) {
     let Op::Stat(p, s) = *op else { return };
     let (Some(f), Some(c)) = (with_failure.get(&p), with_severe.get(&p)) else { return };
     let (f, c) = (*f, *c);
@@ -496,13 +496,13 @@ fn judge_severity(cx: &Ctx<'_>, rank: &[usize], op: &Op, with_failure: &TMap, wi
     } else {
         "costs-same"
     };
-    cx.distinct.outcome(&("severity", s.kind(), rel));
-    cx.tally(&format!("severity:{}:{}", s.kind(), rel));
+    cx.distinct.outcome(&("severity", s.kind(), plain.kind(), rel));
+    cx.tally(&format!("severity:{}-vs-{}:{}", s.kind(), plain.kind(), rel));
     if rel == "costs-less" {
-        cx.col.offer("C10.severity", feats(&[("entry", entry_name(op)), ("regime", regime(with_severe.len()).into())]), rank, || {
+        cx.col.offer("C10.severity", feats(&[("entry", entry_name(op)), ("plain_failure", plain.kind().into()), ("regime", regime(with_severe.len()).into())]), rank, || {
             (json!({"history": hist(), "peer": nm(p), "score_after_plain_failure_instead": f, "score_after_this_report": c,
-                    "note": "same prefix, last report replaced by FailedResponse for the comparison"}),
-             format!("{} leaves {} at {c}, a plain failure at {f}", s.kind(), nm(p)))
+                    "note": format!("same prefix, last report replaced by {} for the comparison", plain.kind())}),
+             format!("{} leaves {} at {c}, a plain {} at {f}", s.kind(), nm(p), plain.kind()))
         });
     }
 }
@@ -659,11 +659,14 @@ fn run_bfs(cx: &Ctx<'_>, phase: usize, ops: &[Op], depth: usize, budget: &Budget
                     judge_edge(cx, &rank, &rp.r_before, op, &rp.prev, &rp.cur, nm, &hist);
                     if matches!(op, Op::Stat(_, Stat::Corrupted | Stat::Violation)) {
                         let Op::Stat(p, _) = *op else { unreachable!() };
-                        let mut sib = hops.clone();
-                        *sib.last_mut().unwrap() = Op::Stat(p, Stat::Failed);
-                        match replay(cx, &[], &sib, false).await {
-                            Ok(s) => judge_severity(cx, &rank, op, &s.cur, &rp.cur, nm, &hist),
-                            Err((entry, msg)) => cx.col.offer("C10.nopanic", feats(&[("entry", entry.clone())]), &rank, || (json!({"history": hist(), "panic": msg}), format!("{entry} panicked: {msg}"))),
+                        // both plain-failure variants (FailedResponse, DataUnavailable) are siblings
+                        for plain in [Stat::Failed, Stat::Unavailable] {
+                            let mut sib = hops.clone();
+                            *sib.last_mut().unwrap() = Op::Stat(p, plain);
+                            match replay(cx, &[], &sib, false).await {
+                                Ok(s) => judge_severity(cx, &rank, op, plain, &s.cur, &rp.cur, nm, &hist),
+                                Err((entry, msg)) => cx.col.offer("C10.nopanic", feats(&[("entry", entry.clone())]), &rank, || (json!({"history": hist(), "panic": msg}), format!("{entry} panicked: {msg}"))),
+                            }
                         }
                     }
                 }
@@ -822,8 +825,8 @@ fn main() {
         partners.sort();
         partners.dedup();
         let mut exts: Vec<Op> = stat_alphabet(&[1, big]).into_iter().map(|s| Op::Stat(p, s)).collect();
-        // FailedResponse first so that the severity siblings are available
-        exts.sort_by_key(|o| !matches!(o, Op::Stat(_, Stat::Failed)));
+        // plain failures first so that the severity siblings are available
+        exts.sort_by_key(|o| !matches!(o, Op::Stat(_, Stat::Failed | Stat::Unavailable)));
         for &q in &partners {
             for s in [true, false] {
                 exts.push(Op::Local(q, p, s));
@@ -833,7 +836,7 @@ fn main() {
             }
         }
         exts.extend([Op::AddAnchor(p), Op::RemAnchor(p), Op::Remove(p)]);
-        let mut failed_map: Option<TMap> = None;
+        let mut failed_map: Vec<(Stat, TMap)> = Vec::new();
         let describe = |ext: Option<&Op>| {
             json!({"base": {"shape": format!("{:?}", b.shape), "n": b.n, "constructor_anchors": b.anchors.iter().map(|a| nm(*a)).collect::<Vec<_>>(),
                             "built_by": match b.shape { Shape::NoEdge => "update_local_trust(n_i, n_{i+1 mod n}, false) for all i", Shape::Ring => "update_local_trust(n_i, n_{i+1 mod n}, true)", Shape::StarIn => "update_local_trust(n_i, n0, true) for i>=1", Shape::StarOut => "update_local_trust(n0, n_i, true) for i>=1", Shape::Chain => "update_local_trust(n_i, n_{i+1}, true) for i<n-1", Shape::Clique => "update_local_trust(n_i, n_j, true) for all i != j" }},
@@ -898,10 +901,10 @@ fn main() {
                     judge_map(&cx, &rank, &r, &cur, fell_back, &queried, nm, &hist);
                     judge_edge(&cx, &rank, &r_before, ext, &prev, &cur, nm, &hist);
                     match ext {
-                        Op::Stat(_, Stat::Failed) => failed_map = Some(cur.clone()),
+                        Op::Stat(_, pl @ (Stat::Failed | Stat::Unavailable)) => failed_map.push((*pl, cur.clone())),
                         Op::Stat(_, Stat::Corrupted | Stat::Violation) => {
-                            if let Some(f) = &failed_map {
-                                judge_severity(&cx, &rank, ext, f, &cur, nm, &hist);
+                            for (pl, f) in &failed_map {
+                                judge_severity(&cx, &rank, ext, *pl, f, &cur, nm, &hist);
                             }
                         }
                         _ => {}
